@@ -60,6 +60,7 @@ StringCmds ==
   \cup {C("INCRBY", <<k, I(5)>>) : k \in Keys} \cup {C("DECRBY", <<k, I(7)>>) : k \in Keys}
   \cup {C("MSET", <<S("ka"), v, S("kb"), S("vb")>>) : v \in {S("va"), S("5")}} \cup {C("MSET", <<S("ka"), S("va"), S("ka"), S("vb")>>)}
   \cup {C("MSETNX", <<S("ka"), S("va"), S("kb"), S("vb")>>), C("MSETNX", <<S("kb"), S("vb")>>), C("MGET", <<S("ka"), S("kb"), S("ka")>>)}
+  \cup {C("MSETNX", <<S("ka"), S("va"), S("ka"), S("vb")>>), C("MSETNX", <<S("kb"), S("va"), S("ka"), S("vb"), S("kb"), S("s:crlf")>>)}   \* a key given twice: the last value
 
 HashCmds ==
        {C("HSET", <<k, f, v>>) : k \in Keys, f \in Flds, v \in Vals} \cup {C("HSETNX", <<k, f, S("vb")>>) : k \in Keys, f \in Flds}
